@@ -302,6 +302,34 @@ def rule_self_justifying(ctx):
     ctx.ob(R, "get_justification returns held certificates", ok, "Commit(self.high_commit_qc) / Timeout(self.high_timeout_qc)" if ok else "get_justification returns %s" % [show(r)[:100] for r in rets], g.loc())
 
 
+def rule_timeout_content(ctx):
+    R = "C05.11"
+    ctx.rule(R, "every ReplicaTimeout a replica signs reports its state verbatim: high_vote is the recorded high vote (self.high_vote, unfiltered), high_qc the highest commit certificate it holds (self.high_commit_qc), the view its current view in its epoch. The re-proposal rule counts exactly these reports: a replica that withholds its high vote (e.g. once a timeout certificate of the vote's view exists) lets a later timeout certificate come out without the sub-quorum for a block that a quorum has voted to commit, and the next leader proposes another payload for that number")
+    n = 0
+    for f, c, var, args in find_sends(ctx):
+        if var != "ReplicaTimeout":
+            continue
+        T = ctx.T(f)
+        for t in subterms(args[1]):
+            if t[0] == "agg" and t[1].endswith("::ReplicaTimeout") and t[2] == "ReplicaTimeout":
+                n += 1
+                flds = dict(t[3])
+                for fld, src in (("high_vote", "high_vote"), ("high_qc", "high_commit_qc")):
+                    v = flds.get(fld)
+                    vs = common.value_terms(f, T, v) if v is not None else []
+                    while v is not None and v[0] == "call" and v[1] in ("std::clone::Clone::clone", "std::option::Option::cloned", "std::option::Option::as_ref") and v[2]:
+                        v = v[2][0]
+                    direct = v is not None and self_field(v, src)
+                    filtered = any(x[0] == "call" and x[1].rsplit("::", 1)[-1] in ("filter", "take_if", "and_then", "xor", "zip", "then", "then_some", "take", "replace") for u in vs for x in subterms(u))
+                    ok = direct and not filtered
+                    ctx.ob(R, "ReplicaTimeout.%s in %s" % (fld, root_fn(f).qname.split("::")[-1]), ok, "%s: self.%s.clone()" % (fld, src) if ok else
+                           "the signed ReplicaTimeout reports %s = %s instead of the recorded self.%s: what the replica has voted for / holds is under-reported to the timeout certificate" % (fld, show(flds.get(fld))[:100] if flds.get(fld) is not None else None, src), f.loc(c["t"].get("ln")))
+                vw = flds.get("view")
+                okv = vw is not None and any(self_field(x, "view_number") for x in subterms(vw))
+                ctx.ob(R, "ReplicaTimeout.view in %s" % root_fn(f).qname.split("::")[-1], okv, "view.number = self.view_number" if okv else "the timeout vote is not for the replica's current view: %s" % (show(vw)[:80] if vw is not None else None), f.loc(c["t"].get("ln")))
+    ctx.floor(R, "signed ReplicaTimeout messages", n, 1)
+
+
 def rule_justification_choice(ctx):
     R = "C05.4"
     ctx.rule(R, "justification choice (table over held commit/timeout certificates and their view order): Commit is chosen iff a commit certificate is held and (no timeout certificate is held or commit.view >= timeout.view); with neither held only the assertion is reachable")
@@ -350,4 +378,4 @@ def rule_justification_choice(ctx):
 
 
 RULES = [("C05.1", rule_who_writes), ("C05.4", rule_justification_choice), ("C05.2", rule_strictly_newer), ("C05.3", rule_embedded_commit_qc), ("C05.10", rule_justification_always_processed), ("C05.9", rule_new_view_membership), ("C05.5", rule_stale_new_view), ("C05.6", rule_stale_votes),
-         ("C05.7", rule_self_justifying), ("C05.8", rule_wrong_leader)]
+         ("C05.7", rule_self_justifying), ("C05.11", rule_timeout_content), ("C05.8", rule_wrong_leader)]
